@@ -74,9 +74,19 @@ def rule_generation(ctx: Ctx):
     # non-emptiness guard before the unit loop
     g = [i for i in O.body if isinstance(i, ast.If) and norm(i.test) == f"not {new}" and len(i.body) == 1 and
          norm(i.body[0]) in (f"{nvar} = max(1, {nvar})", f"{nvar} = max({nvar}, 1)")]
-    ctx.check(len(g) == 1 and O.body.index(g[0]) < O.body.index(U) and (not nd or O.body.index(nd[0]) < O.body.index(g[0])), "R-C15-2", f, g[0] if g else None,
-              "while the sample is still empty the next annotator gets at least one unit: the returned continuum is never empty",
-              bad_detail="no `if not sample: nb_units = max(1, nb_units)` guard between the count draw and the unit loop: an empty sample can be returned", key="nonempty")
+    alt = [s_ for s_ in O.body if s_ is not U and O.body.index(s_) < O.body.index(U) and not g and
+           new in {x.id for x in ast.walk(s_) if isinstance(x, ast.Name)} and nvar in {x.id for x in ast.walk(s_) if isinstance(x, ast.Name)}]
+    if alt and not g:
+        ok_alt = any(isinstance(s_, ast.Assign) and norm(s_.targets[0]) == nvar and norm(s_.value) in (
+            f"max(0 if {new} else 1, {nvar})", f"max({nvar}, 0 if {new} else 1)", f"max(1 if not {new} else 0, {nvar})", f"max({nvar}, 1 if not {new} else 0)") for s_ in alt)
+        if ok_alt:
+            ctx.ok("R-C15-2", f, alt[0], "while the sample is still empty the next annotator gets at least one unit (max with 1 when empty)", key="nonempty")
+        else:
+            ctx.undecided("R-C15-2", f, alt[0], "a statement relates the unit count to the emptiness of the sample, but not in a recognised guard shape (not a verdict)", key="nonempty")
+    else:
+      ctx.check(len(g) == 1 and O.body.index(g[0]) < O.body.index(U) and (not nd or O.body.index(nd[0]) < O.body.index(g[0])), "R-C15-2", f, g[0] if g else None,
+                "while the sample is still empty the next annotator gets at least one unit: the returned continuum is never empty",
+                bad_detail="no `if not sample: nb_units = max(1, nb_units)` guard between the count draw and the unit loop: an empty sample can be returned", key="nonempty")
     # unit body
     body = U.body
     env: Dict[str, ast.AST] = {}
